@@ -57,6 +57,7 @@ struct BadOp {};
 #define XS_18 "((end/#)+(end/#))"
 #define XE_18(K) ((adept::end / (K)[0]) + (adept::end / (K)[1]))
 #define XSHAPES(X) X(0) X(1) X(2) X(3) X(4) X(5) X(6) X(7) X(8) X(9) X(10) X(11) X(12) X(13) X(14) X(15) X(16) X(17) X(18)
+#define XSHAPES2(X) X(0) X(1) X(2) X(3) X(4) X(5) X(6) X(7)
 enum { XMENU1 = 19, XMENU2 = 8, XMENU3 = 4 };
 inline const char* const* xshape_table() {
 #define X(ID) XS_##ID,
@@ -700,7 +701,12 @@ template <class AR> inline VBase* make_parent(const std::vector<int>& d, AR*& ke
   typedef typename ArT<AR>::elem T;
   ExpressionSize<R> dims;
   for (int k = 0; k < R; ++k) dims[k] = d[k];
-  keep = new AR(dims);
+  if (ArT<AR>::active) {
+    // (the constructor pads the rows of a row-major double array to the packet size; the parent is to be dense)
+    keep = new AR();
+    if (internal::array_row_major_order) keep->resize_row_major_contiguous(dims); else keep->resize_column_major(dims);
+  }
+  else keep = new AR(dims);
   g_vol = 1;
   for (int k = 0; k < R; ++k) g_vol *= d[k];
   T* p = keep->data();
